@@ -8,5 +8,12 @@ for pid in sorted(P.META):
     cfg = P.PROPS[pid]
     lean += cfg["proof_modules"] + cfg.get("model_modules", []) + [cfg["drv"]]
     bins += ["--bin", cfg["bin"]]
+    for sec in cfg.get("secondary", []):
+        lean += [sec["drv"]]
+        bins += ["--bin", sec["bin"]]
 print(" ".join(dict.fromkeys(lean)))
-print(" ".join(bins))
+seen, out = set(), []
+for i in range(0, len(bins), 2):
+    if bins[i + 1] not in seen:
+        seen.add(bins[i + 1]); out += bins[i:i + 2]
+print(" ".join(out))
